@@ -116,11 +116,11 @@ def load_overlay(path, variants=frozenset()):
             flush()
             h = ln[4:].strip()
             m = re.fullmatch(r'(before|after)\s+<<(.*)>>', h)
-            m2 = re.fullmatch(r'loop\s+(\d+)\s+(outer|pre|spec|post)', h)
+            m2 = re.fullmatch(r'(loop|closure)\s+(\d+)\s+(outer|pre|spec|post)', h)
             if m:
                 sec = (m.group(1), m.group(2), no)
             elif m2:
-                sec = ('loop', int(m2.group(1)), m2.group(2))
+                sec = (m2.group(1), int(m2.group(2)), m2.group(3))
             elif h in ('requires', 'ensures', 'body-start', 'body-end'):
                 sec = h
             else:
@@ -337,6 +337,120 @@ def _desugar(body, spec, ctr, dropped, used):
     return out
 
 
+EXPR_START = ('(', ',', '=', '{', ';', '=>', '[', 'return', 'move', '&&', '||', '!', '+=', ':')
+
+
+def _closures(body, spec, ctr, dropped, used):
+    """T8: a closure whose parameter is a pattern (`|(v, vtx)| e`, `|(v, _)| e`) is rewritten to
+    `|__pK| SPEC { let (v, vtx) = __pK; e }` - the binding a closure parameter pattern stands for. A closure with
+    plain identifier parameters is only wrapped in a block when the overlay has a spec for it. Pre-order ordinals."""
+    out = []
+    i, n = 0, len(body)
+    while i < n:
+        t = body[i]
+        if t.origin == 'orig' and t.kind == 'punct' and t.text == '|':
+            pv = prev_sig(body, i - 1)
+            if pv < 0 or body[pv].text in EXPR_START:
+                # parameters up to the closing '|'
+                j = i + 1
+                while j < n:
+                    if body[j].kind == 'punct' and body[j].text in rsscan.OPEN:
+                        j = match_close(body, j)
+                    elif body[j].kind == 'punct' and body[j].text == '|':
+                        break
+                    j += 1
+                if j >= n:
+                    raise Unsupported('closure without closing | (line %s)' % t.line)
+                params = body[i + 1:j]
+                b0 = next_sig(body, j + 1)
+                if b0 < n and body[b0].text == '->':
+                    raise Unsupported('closure with explicit return type (line %s)' % t.line)
+                if b0 < n and body[b0].text == '{':
+                    e = match_close(body, b0) + 1
+                else:
+                    e = b0
+                    while e < n:
+                        x = body[e]
+                        if x.kind == 'punct' and x.text in rsscan.OPEN:
+                            e = match_close(body, e)
+                        elif x.kind == 'punct' and x.text in (',', ')', ']', '}', ';'):
+                            break
+                        e += 1
+                cbody = body[j + 1:e]
+                k = ctr.n
+                ctr.n += 1
+                csp = spec.sections.get(('closure', k, 'spec')) if spec else None
+                if csp is not None:
+                    used.add(('closure', k, 'spec'))
+                # split parameters at top-level commas
+                plist, cur, depth = [], [], 0
+                for x in params:
+                    if x.kind == 'punct' and x.text in ('(', '[', '{', '<'):
+                        depth += 1
+                    elif x.kind == 'punct' and x.text in (')', ']', '}', '>'):
+                        depth -= 1
+                    if x.kind == 'punct' and x.text == ',' and depth == 0:
+                        plist.append(cur)
+                        cur = []
+                    else:
+                        cur.append(x)
+                if [x for x in cur if x.sig()]:
+                    plist.append(cur)
+                def simple(p):
+                    sg = [x for x in p if x.sig()]
+                    if sg and sg[0].text == 'mut':
+                        sg = sg[1:]
+                    return len(sg) >= 1 and sg[0].kind == 'ident' and (len(sg) == 1 or sg[1].text == ':')
+                if all(simple(p) for p in plist) and csp is None:
+                    out.append(t)
+                    out += params
+                    out.append(body[j])
+                    out += _closures(cbody, spec, ctr, dropped, used)
+                    i = e
+                    continue
+                # rewritten form; the original closing '|' is replaced by a template one (keeps source order)
+                dropped.append(('T8', '|', [body[j]]))
+                out.append(t)
+                lets = []
+                first = True
+                for pi, p in enumerate(plist):
+                    if not first:
+                        out += lit(', ', 'T8')
+                    first = False
+                    if simple(p):
+                        out += _trim(p)
+                    else:
+                        nm = '__p%d' % k if len(plist) == 1 else '__p%d_%d' % (k, pi)
+                        # a type annotation after the pattern stays with the parameter
+                        depth, colon = 0, None
+                        for xi, x in enumerate(p):
+                            if x.kind == 'punct' and x.text in ('(', '[', '{'):
+                                depth += 1
+                            elif x.kind == 'punct' and x.text in (')', ']', '}'):
+                                depth -= 1
+                            elif x.kind == 'punct' and x.text == ':' and depth == 0:
+                                colon = xi
+                                break
+                        pat = p if colon is None else p[:colon]
+                        out += lit(nm, 'T8')
+                        if colon is not None:
+                            out += p[colon:]
+                        lets.append((pat, nm))
+                out += lit('| ', 'T8')
+                if csp is not None:
+                    out += splice_toks(csp.rstrip() + ' ')
+                out += lit('{ ', 'T8')
+                for (pat, nm) in lets:
+                    out += lit('let ', 'T8') + _trim(pat) + lit(' = %s; ' % nm, 'T8')
+                out += _closures(cbody, spec, ctr, dropped, used)
+                out += lit(' }', 'T8')
+                i = e
+                continue
+        out.append(t)
+        i += 1
+    return out
+
+
 def _trim(toks):
     a, b = 0, len(toks)
     while a < b and toks[a].kind == 'ws':
@@ -350,7 +464,7 @@ def _apply_anchor(toks, where, fragment, text, fname):
     frag = [t.text for t in tokenize(fragment) if t.sig()]
     if not frag:
         raise Unsupported('%s: empty anchor fragment' % fname)
-    idx = [i for i, t in enumerate(toks) if t.sig() and t.origin in ('orig', 'T3')]
+    idx = [i for i, t in enumerate(toks) if t.sig() and t.origin in ('orig', 'T3', 'T8')]
     texts = [toks[i].text for i in idx]
     hits = []
     for s in range(0, len(texts) - len(frag) + 1):
@@ -419,6 +533,8 @@ def extract_fn(item, file, impl_key, spec, twin_false=False):
         out += splice_toks('\n' + spec.sections['body-start'])
         used.add('body-start')
     b = _drop_logging(body, dropped)
+    cctr = LoopCounter()
+    b = _closures(b, spec, cctr, dropped, used)
     ctr = LoopCounter()
     b = _desugar(b, spec, ctr, dropped, used)
     if spec:
@@ -466,7 +582,7 @@ def extract_fn(item, file, impl_key, spec, twin_false=False):
         raise Unsupported('provenance check failed for %s: emitted source tokens are not the source minus T2/T3 spans, '
                           'in source order' % item.name)
     for t in out:
-        if t.origin not in ('orig', 'T3', 'T6', 'T7'):
+        if t.origin not in ('orig', 'T3', 'T6', 'T7', 'T8'):
             raise Unsupported('provenance: unknown origin %s' % t.origin)
     rt = [t.text for t in tokenize(render(out)) if t.sig()]
     if rt != [t.text for t in out if t.sig()]:
